@@ -1,2 +1,3 @@
 pub mod smoke;
 pub mod server;
+pub mod idmath;
